@@ -100,6 +100,9 @@ func inWGDone(c *Ctx, fr *Frame, fn *ssa.Function, a []Value) Value {
 		c.wg = map[*Value]int64{}
 	}
 	c.wg[k]--
+	if c.sched != nil {
+		c.sched.release(c.sched.cur, c.sched.wgClock(k))
+	}
 	if c.sched != nil && c.wg[k] == 0 {
 		c.sched.wakeWG(k)
 	}
@@ -109,6 +112,9 @@ func inWGDone(c *Ctx, fr *Frame, fn *ssa.Function, a []Value) Value {
 func inWGWait(c *Ctx, fr *Frame, fn *ssa.Function, a []Value) Value {
 	k := c.mutexKey(a[0])
 	if c.wg[k] == 0 {
+		if c.sched != nil {
+			c.sched.acquire(c.sched.cur, *c.sched.wgClock(k))
+		}
 		return nil
 	}
 	if c.sched != nil {
